@@ -104,3 +104,35 @@ Print Assumptions C12_Dvia_chain_rule.
 Theorem C12_D_correct : forall M, smooth_model M -> forall p i t, tk_free t = true -> defined (M p) t -> derivable_pt_lim (fun x => ev (M (upd p i x)) t) (p i) (ev (M p) (D i t)).
 Proof. exact DiffAlgProofs.D_correct. Qed.
 Print Assumptions C12_D_correct.
+
+Theorem C12_div_grad_cart_is_laplacian : forall rho, ev rho (div_cart D (list3 (grad_cart D gen_scalar))) = ev rho (lap D gen_scalar).
+Proof. exact OpsProofs.div_grad_cart_is_laplacian. Qed.
+Print Assumptions C12_div_grad_cart_is_laplacian.
+
+Theorem C12_curl_curl_cart : forall rho, ev3 rho (curl_cart D (list3 (curl_cart D (gen_vector 3)))) = (let '(g1, g2, g3) := ev3 rho (grad_cart D (div_cart D (gen_vector 3))) in (g1 - ev rho (lap D (TJ 1 0 0 0)), g2 - ev rho (lap D (TJ 2 0 0 0)), g3 - ev rho (lap D (TJ 3 0 0 0)))).
+Proof. exact OpsProofs.curl_curl_cart. Qed.
+Print Assumptions C12_curl_curl_cart.
+
+Theorem C12_div_grad_cyl_is_cart : forall rho, vq rho 0%nat <> 0 -> ev rho (div_cyl (Dvia X_cyl) (list3 (grad_cyl (Dvia X_cyl) cart_scalar_at))) = ev rho (comp X_cyl (div_cart D (list3 (grad_cart D gen_scalar)))).
+Proof. exact OpsProofs.div_grad_cyl_is_cart. Qed.
+Print Assumptions C12_div_grad_cyl_is_cart.
+
+Theorem C12_div_grad_sph_is_cart : forall rho, vq rho 0%nat <> 0 -> sin (vq rho 2%nat) <> 0 -> ev rho (div_sph (Dvia X_sph) (list3 (grad_sph (Dvia X_sph) cart_scalar_at))) = ev rho (comp X_sph (div_cart D (list3 (grad_cart D gen_scalar)))).
+Proof. exact OpsProofs.div_grad_sph_is_cart. Qed.
+Print Assumptions C12_div_grad_sph_is_cart.
+
+Theorem C12_grad_div_cyl_is_cart : forall rho, vq rho 0%nat <> 0 -> ev3 rho (grad_cyl (Dvia X_cyl) (div_cyl (Dvia X_cyl) (cart_vector_local Cyl))) = local_R rho E_cyl (ev3 rho (map3 (comp X_cyl) (grad_cart D (div_cart D cart_vector)))).
+Proof. exact OpsProofs.grad_div_cyl_is_cart. Qed.
+Print Assumptions C12_grad_div_cyl_is_cart.
+
+Theorem C12_grad_div_sph_is_cart : forall rho, vq rho 0%nat <> 0 -> sin (vq rho 2%nat) <> 0 -> ev3 rho (grad_sph (Dvia X_sph) (div_sph (Dvia X_sph) (cart_vector_local Sph))) = local_R rho E_sph (ev3 rho (map3 (comp X_sph) (grad_cart D (div_cart D cart_vector)))).
+Proof. exact OpsProofs.grad_div_sph_is_cart. Qed.
+Print Assumptions C12_grad_div_sph_is_cart.
+
+Theorem C12_curl_curl_cyl_is_cart : forall rho, vq rho 0%nat <> 0 -> ev3 rho (curl_cyl (Dvia X_cyl) (list3 (curl_cyl (Dvia X_cyl) (cart_vector_local Cyl)))) = local_R rho E_cyl (ev3 rho (map3 (comp X_cyl) (curl_cart D (list3 (curl_cart D cart_vector))))).
+Proof. exact OpsProofs.curl_curl_cyl_is_cart. Qed.
+Print Assumptions C12_curl_curl_cyl_is_cart.
+
+Theorem C12_curl_curl_sph_is_cart : forall rho, vq rho 0%nat <> 0 -> sin (vq rho 2%nat) <> 0 -> ev3 rho (curl_sph (Dvia X_sph) (list3 (curl_sph (Dvia X_sph) (cart_vector_local Sph)))) = local_R rho E_sph (ev3 rho (map3 (comp X_sph) (curl_cart D (list3 (curl_cart D cart_vector))))).
+Proof. exact OpsProofs.curl_curl_sph_is_cart. Qed.
+Print Assumptions C12_curl_curl_sph_is_cart.
